@@ -134,6 +134,13 @@ func (g *Gen) FnLine(pool []string, verb, db, coll string, carrier string) *FnCa
 				"outm", ObjN("$map", ObjN("input", ref(n[3]), "as", FreeS("it"), "in", ObjN("$toUpper", vref("it", n[2])))))),
 				ObjN("$group", ObjN("_id", vref("ROOT", n[1]), "cnt", ObjN("$sum", vref("CURRENT", n[0])))))
 		}
+		if g.chance(0.3) {
+			// typed literals below a leading search stage (the path names a fixed, non-planted field) and
+			// expression operators outside the tool's core table
+			lead := ObjN("$search", ObjN("index", KeepS("fnidx"), "compound", ObjN("must", ArrN(ObjN("equals", ObjN("path", FreeS("fixedpath"), "value", g.LitClass(g.pick("oid", "date", "b64"), "fn-search"))), ObjN("range", ObjN("path", FreeS("fixedpath"), "gte", g.LitClass("date", "fn-search")))))))
+			p.Vals = append([]*Node{lead}, p.Vals...)
+			p.Vals = append(p.Vals, ObjN("$addFields", ObjN("outz", ObjN("$toLower", ref(n[1])), "outq", ObjN("$dateToString", ObjN("date", ref(n[0]), "format", FreeS("%Y"))))))
+		}
 		cmd = ObjN("aggregate", collN(coll), "pipeline", p, "cursor", keep(ObjN()))
 		clauses = [][]string{{n[0], n[1]}}
 	case "wupdate":
